@@ -157,6 +157,8 @@ Crossbeam<'a, ItemType, BUFFER_SIZE, MAX_STREAMS> {
     #[inline(always)]
     fn send_derived(&self, arc_item: &Arc<ItemType>) -> bool {
         for stream_id in self.streams_manager.used_streams() {
+            #[cfg(feature = "verif")]
+            crate::verif::yield_value("used_read", stream_id as *const u32 as usize, || *stream_id as u64);
             if *stream_id == u32::MAX {
                 break
             }
